@@ -107,8 +107,13 @@ def units(tier, seed):
             [["f", True, "g"], ["1", False, "g"]],
             [["f", True, "g"], ["x", False, "g"]],
             [["f + x + 1", False, "g"]],
+            [["x", False, "g:h"], ["z", False, "h:g"]],
+            [["f", False, "g:h"], ["x", False, "h:g"]],
         ]
         u.append([{"lv": list(lv), "holes": holes, "terms": p} for p in pairs])
+    # many cells: 6 x 7 = 42 columns in the indicator of g:h
+    big = [3, 2, 6, 7, 2]
+    u.append([{"lv": big, "holes": False, "terms": [[e, z, g]]} for e in ("1", "x", "f", "scale(x)") for z in (False, True) if not (e == "1" and z) for g in ("g:h", "h:g", "g/h")])
     return u
 
 
@@ -179,12 +184,17 @@ def label_value(lab, df):
 def expected_terms(case):
     """Group terms the formula denotes: name -> (effect atoms or None for the intercept, factor atoms)."""
     out = {}
+    seen = set()
     for e, zero, g in case["terms"]:
         effs = ([] if zero else [None]) + EFFECTS[e]
         if e == "1":
             effs = [None]
         for fac in GROUPINGS[g]:
             for ef in effs:
+                ident = (None if ef is None else frozenset(ef), frozenset(fac))  # g:h and h:g are one factor
+                if ident in seen:
+                    continue
+                seen.add(ident)
                 name = ("1" if ef is None else ":".join(ef)) + "|" + ":".join(fac)
                 out[name] = (ef, fac)
     return out
